@@ -4,8 +4,8 @@ import Model.Xfr
 
 `c13.run fix=<0|1> tr=<0|1> o=<name|none> t=<rdtype> s=<serial|none> u=<0|1> N=<name;name;…> Z=<rr;rr;…|-> M=<msg>|<msg>|…`
   name  = comma separated hex labels (`-` = empty label), `@` = the empty name; lower-cased on input
-  rr    = `<owner index into N>:<rdtype>:<serial>.<body>`
-  rrset = `<owner index>:<rdtype>:<serial>.<body>,<serial>.<body>,…`
+  rr    = `<owner index into N>:<rdtype>:<ttl>:<serial>.<body>`
+  rrset = `<owner index>:<rdtype>:<ttl>:<serial>.<body>,<serial>.<body>,…`
   msg   = `<rcode>/<question: - or idx:type>/<rrset;rrset;… or ->`
 answers `T=<per message state or !>|… R=<ok|err:Class> Z=<= or sorted rr list or ->`.
 -/
@@ -34,18 +34,19 @@ def nameAt (names : List Xfr.Name) (i : Nat) : Option Xfr.Name := names[i]?
 
 def parseRRset (names : List Xfr.Name) (s : String) : Option RRset :=
   match splitC s ':' with
-  | [i, t, ds] => do
+  | [i, t, ttl, ds] => do
     let o ← nameAt names (← i.toNat?)
     let t ← t.toNat?
+    let ttl ← ttl.toNat?
     let ds ← if ds = "" then some [] else (splitC ds ',').mapM parseRdata
-    some ⟨o, t, ds⟩
+    some ⟨o, t, ttl, ds⟩
   | _ => none
 
 def parseRR (names : List Xfr.Name) (s : String) : Option RR :=
   match splitC s ':' with
-  | [i, t, d] => do
+  | [i, t, ttl, d] => do
     let o ← nameAt names (← i.toNat?)
-    some ⟨o, ← t.toNat?, ← parseRdata d⟩
+    some ⟨o, ← t.toNat?, ← parseRdata d, ← ttl.toNat?⟩
   | _ => none
 
 def parseList {α} (f : String → Option α) (s : String) (sep : Char) : Option (List α) :=
@@ -68,7 +69,7 @@ def stripKey (key : String) (tok : String) : Option String :=
 
 /-- canonical record key: (owner index, rdtype, serial, body) -/
 def recKey (names : List Xfr.Name) (r : RR) : List Nat :=
-  [(names.findIdx? (· == r.owner)).getD 9999, r.rdtype, r.rdata.serial, r.rdata.body]
+  [(names.findIdx? (· == r.owner)).getD 9999, r.rdtype, r.ttl, r.rdata.serial, r.rdata.body]
 
 def lexLt : List Nat → List Nat → Bool
   | [], [] => false
@@ -84,7 +85,7 @@ def canonZone (names : List Xfr.Name) (z : Zone) : List (List Nat) :=
   z.foldl (fun acc r => insertSorted (recKey names r) acc) []
 
 def showKey : List Nat → String
-  | [i, t, s, b] => s!"{i}:{t}:{s}.{b}"
+  | [i, t, ttl, s, b] => s!"{i}:{t}:{ttl}:{s}.{b}"
   | _ => "?"
 
 def showZone (ks : List (List Nat)) : String :=
@@ -144,6 +145,27 @@ def handleC13 : List String → Option String
     some (match makeQuery origin z ser with
       | .ok (t, sv) => s!"ok {t} {match sv with | some n => toString n | none => "none"}"
       | .error e => "err:" ++ e.toString)
+  | ["c13.glue", o, q, mode, ns, z, us, ts] => do
+    let o ← C13.stripKey "o" o
+    let q ← C13.stripKey "q" q
+    let mode ← C13.stripKey "mode" mode
+    let names ← C13.parseList C13.parseName (← C13.stripKey "N" ns) ';'
+    let z ← C13.parseList (C13.parseRR names) (← C13.stripKey "Z" z) ';'
+    let us ← C13.parseList (C13.parseMsg names) (← C13.stripKey "U" us) '|'
+    let ts ← C13.parseList (C13.parseMsg names) (← C13.stripKey "T" ts) '|'
+    let origin ← if o = "none" then some none else (C13.parseName o).map some
+    let query : Option (Nat × Option Nat) ← if q = "none" then some none else
+      match C13.splitC q ':' with
+      | [qt, auth] => do some (some (← qt.toNat?, ← C13.parseOptNat auth))
+      | _ => none
+    let mode : UdpMode ← if mode = "0" then some .never else if mode = "1" then some .tryFirst
+      else if mode = "2" then some .only else none
+    let out := inboundXfr true origin query mode z us ts
+    let z0c := C13.canonZone names z
+    let z1c := C13.canonZone names out.zone
+    let zs := if z0c == z1c then "=" else C13.showZone z1c
+    let r := match out.err with | none => "ok" | some e => "err:" ++ e.toString
+    some s!"R={r} Z={zs}"
   | ["c13.xs", qt, auth] => do
     let qt ← qt.toNat?
     let auth ← C13.parseOptNat auth
